@@ -16,7 +16,7 @@ META = {
              'failed-write cause followed by removal of the cause; signature = (object type, rejection kind, position '
              'class, name reused afterwards?); all are non-trivial'),
     'required_obs': {'quick': ['compared', 'rejected-as-intended', 'name-reused-after-rejection', 'rejection-after-registration',
-                               'rejection-before-registration', 'rejected-call-other-logical-file', 'rejected-assignment-between-writes'] + ['rej-' + k for k in REJECTIONS] + ['failed-write-' + k for k in FAILED_WRITES]},
+                               'rejection-before-registration', 'rejected-call-other-logical-file', 'rejected-assignment-between-writes', 'rejected-first-origin'] + ['rej-' + k for k in REJECTIONS] + ['failed-write-' + k for k in FAILED_WRITES]},
     'assumptions': ['rejection kinds are those the public API itself raises for',
                     'both histories run in fresh interpreters, so process-level caches (C14) cannot interfere'],
     'technique': 'runtime monitoring + fault enumeration: byte differential between a history with rejected calls / a failed write and the same history without them (fresh processes)',
@@ -37,6 +37,10 @@ def cases(tier, seed):
     # two logical files: a call rejected in one of them must not tie it to the other's sets
     for j in range(12 if tier == 'quick' else 200):
         yield {'stratum': 'rejected-call-other-logical-file', 'index': i, 'kind': 'reject-multilf'}
+        i += 1
+    # the FIRST add_origin of a logical file is rejected (objects without origin exist already), then a valid one follows
+    for j in range(16 if tier == 'quick' else 300):
+        yield {'stratum': 'rejected-first-origin', 'index': i, 'kind': 'reject-first-origin'}
         i += 1
     # a rejected assignment BETWEEN two writes (values derived at the first write are in place by then)
     for j in range(16 if tier == 'quick' else 300):
@@ -250,6 +254,74 @@ def run_case(case):
                         'detail': f'{label}: files differ; {describe_diff(d1, d2)}'})
         return {'evals': 1, 'violations': vio, 'obs': obs, 'sigs': [f'multilf:{t}:{sn}:{order[0] is good}'],
                 'sample': {'type': t, 'set_name': sn, 'rejected_in_lf': 1 - good_lf, 'exception': o1[rej_idx][1:]}}
+    if case['kind'] == 'reject-first-origin':
+        spec = metagen.meta_spec(r, avoid=avoid, n_objects=r.choice([3, 6]), n_origins=1, origin_pos=r.choice(['middle', 'last', 'last']),
+                                 mx=8192, later_p=0.0, types=['zone', 'axis', 'equipment', 'tool', 'long_name', 'comment', 'parameter'])
+        spec['write'] = {'output_chunk_size': 2 ** 16}
+        oi = next(i_ for i_, o in enumerate(spec['ops']) if o['op'] == 'origin')
+        # no explicit references in this history: every object is to get the reference of the origin that is accepted
+        for o in spec['ops']:
+            o.pop('origin_reference', None)
+            if o['op'] == 'origin':
+                o['attrs'].pop('origin_reference', None)
+        good_ref = r.choice([None, None, 3])
+        if good_ref is not None:
+            spec['ops'][oi]['attrs']['origin_reference'] = good_ref
+        how = r.choice(['creation-time', 'wrong-type', 'non-numeric', 'unknown-keyword'])
+        bad = gen.origin_op('REJECTED-ORIGIN', fsn=5)
+        bad['attrs']['origin_reference'] = r.choice([7, 130])
+        if how == 'creation-time':
+            bad['attrs']['creation_time'] = '12 March 2021, about noon'
+        elif how == 'wrong-type':
+            bad['attrs']['company'] = 12345
+        elif how == 'non-numeric':
+            bad['attrs']['run_number'] = 'abc'
+        else:
+            bad['attrs']['no_such_keyword'] = 1
+        bad['expect'] = 'reject'
+        bad['lf'] = 0
+        new = []
+        for i_, o in enumerate(spec['ops']):
+            if i_ == oi:
+                new.append(bad)
+            new.append(o)
+
+        def sh(v):
+            if isinstance(v, dict):
+                if '$ref' in v:
+                    return {'$ref': v['$ref'] + (1 if v['$ref'] >= oi else 0)}
+                if '$origin_of' in v:
+                    return {'$origin_of': v['$origin_of'] + (1 if v['$origin_of'] >= oi else 0)}
+                return {k: sh(x) for k, x in v.items()}
+            if isinstance(v, list):
+                return [sh(x) for x in v]
+            return v
+        for o in new:
+            if o is bad:
+                continue
+            if 'attrs' in o:
+                o['attrs'] = sh(o['attrs'])
+            if 'target' in o and o['target'] >= oi:
+                o['target'] += 1
+        spec['ops'] = new
+        rej_idx = oi
+        w1, d1, o1 = history.run_fresh(spec)
+        if not o1 or o1[rej_idx][0] == 'ok':
+            bump('not-rejected:first-origin:' + how)
+            return {'evals': 0, 'violations': [], 'obs': obs, 'sigs': [], 'sample': None}
+        bump('rejected-as-intended')
+        bump('rejected-first-origin')
+        w2, d2, o2 = history.run_fresh(remove_ops(spec, [rej_idx]))
+        bump('compared')
+        label = f'first add_origin rejected ({how}: {o1[rej_idx][1]}) after {oi} objects, then a valid origin (reference {good_ref})'
+        if (w1[0] == 'ok') != (w2[0] == 'ok'):
+            vio.append({'prop': PROP, 'kind': 'rejected-call-changes-writability', 'mech': f'trace:outcome:first-origin:{how}',
+                        'detail': f'{label}: with the rejected call {w1[:3]}, without {w2[:3]}'})
+        elif w1[0] == 'ok' and d1 != d2:
+            vio.append({'prop': PROP, 'kind': 'rejected-call-leaves-trace', 'mech': f'trace:first-origin:{how}',
+                        'detail': f'{label}: files differ (sizes {len(d1)} / {len(d2)}); {describe_diff(d1, d2)}'})
+        return {'evals': 1, 'violations': vio, 'obs': obs, 'sigs': [f'first-origin:{how}:{oi}:{good_ref}'],
+                'sample': {'rejected': how, 'exception': o1[rej_idx][1:], 'objects_before': oi}}
     if case['kind'] == 'reject-between-writes':
         from vf.checks import c14
         sp = c14.base_spec(r, avoid)
